@@ -753,6 +753,72 @@ class DivFluxForm(_FluxForm):
         return self.kf(w, S, a, P, side)
 
 
+class TvdFluxForm(_FluxForm):
+    """The TVD correction is the divergence of the limited anti-diffusive flux, for an ARBITRARY limiter psi:
+        V_P * (-RHS_P) = A_hi*G_hi - A_lo*G_lo,    G_f = max(u_f,0)*psi_p(f) + min(u_f,0)*psi_m(f),
+        psi_p(f) = 1/2 * psi(r_p) * (phi_D - phi_U),  r_p = grad(f-1)/grad(f)      (U, D = lower, upper cell of face f)
+        psi_m(f) = 1/2 * psi(r_m) * (phi_U - phi_D),  r_m = grad(f+1)/grad(f)
+    with grad(f) the two-point face gradient (difference over centre distance), the ratio guarded by the real
+    _fsign (its own contract: C13), and NO correction on the inflow side of a boundary face (psi_p on the first,
+    psi_m on the last face of an axis: the matrix terms use the boundary average there).  This pins the gradient
+    ratio (which neighbour, which guard), the sign convention and the metric factors of the correction."""
+    name = 'convectionTvdRHS/limited_flux_form'
+    props = ('C05', 'C02', 'C01')
+    coef = 'u'
+    uf_congruence = True
+
+    def term(self, w, k, phi):
+        FL = sym_limiter(w)
+        self._FL = FL
+        V, ps = parts(builder(adv, 'convectionTvdRHS', w.grid)(k, phi, FL))
+        return [(lambda P, Va=Va: -w.vec(Va, P)) for Va in ps]
+
+    def flux(self, w, S, a, P, side):
+        lo, hi = _lohi(w, S, a, P, side)
+        u = self.kf(w, S, a, P, side)
+        cs = getattr(w.mesh.cellsize, '_' + AX[a])
+        phi = S['phi']
+        N = w.N[a]
+
+        def grad(L):
+            """two-point gradient on the face between cells L and L+e_a"""
+            H = shift(L, a, 1)
+            return (w.at(phi, H) - w.at(phi, L)) / ((w.at(cs, (L[a],)) + w.at(cs, (H[a],))) / 2)
+        if w.symbolic:
+            first = CTX.decide(I(lo[a]) == 0)
+            last = CTX.decide(I(hi[a]) == N + 1)
+        else:
+            first, last = lo[a] == 0, hi[a] == N + 1
+        g = grad(lo)
+        FL = self._FL
+        fs = adv._fsign
+        if w.symbolic:
+            gs = fs(R.of(g)) if not isinstance(g, (int, float)) else fs(g)
+        else:
+            gs = float(fs(T.real_np.float64(g)))
+        d = w.at(phi, hi) - w.at(phi, lo)
+        if first:
+            psi_p = 0
+        else:
+            rp = grad(shift(lo, a, -1)) / gs
+            psi_p = 0.5 * self._lim(w, FL, rp) * d
+        if last:
+            psi_m = 0
+        else:
+            rm = grad(hi) / gs
+            psi_m = 0.5 * self._lim(w, FL, rm) * (-d)
+        if w.symbolic:
+            up = R.ite(R.of(u) > 0, R.of(u), R.const(0))
+            um = R.ite(R.of(u) < 0, R.of(u), R.const(0))
+            return up * R.of(psi_p) + um * R.of(psi_m)
+        return max(u, 0.0) * psi_p + min(u, 0.0) * psi_m
+
+    def _lim(self, w, FL, r):
+        if w.symbolic:
+            return FL(R.of(r))
+        return float(FL(T.real_np.float64(r)))
+
+
 # ------------------------------------------------------------------------------------------------
 #  closed systems: the boundary-face fluxes of the flux form vanish (no-flux walls, u_wall = 0) or cancel
 #  (periodic axis, equal end cells, same coefficient on the two identified faces)        (C01 "Hence ...")
